@@ -178,10 +178,10 @@ def classify(case: dict, res: dict) -> list[tuple[str | None, str, dict]]:
         probs.append(("foreign", f, "imports a module outside stdlib/httpx/cattrs/the package"))
     for kind, where, msg in probs:
         fid = None
-        # (F53 enum defaults, F31 zero operations, F3 non-error statuses are repaired: no attribution - a branch for a repaired finding
-        #  would only shadow the attribution of a listed one, as F53's did for F35 in a thorough run)
-        if "'return' with value in async generator" in msg and feats["stream_with_other_2xx"]:
-            fid = "F35"
+        # (F53 enum defaults, F31 zero operations, F3 non-error statuses, F35 streamed response next to another 2xx are repaired: no
+        #  attribution - a branch for a repaired finding would only shadow the attribution of a listed one, as F53's did for F35)
+        if False:
+            pass
         elif "duplicate argument" in msg and "mock_client" in where + msg and feats["tag_spelling_variants"]:
             fid = "F23"
         elif kind == "import" and feats["mutual_refs"] and ("partially initialized module" in msg or "circular import" in msg
@@ -189,8 +189,9 @@ def classify(case: dict, res: dict) -> list[tuple[str | None, str, dict]]:
             fid = "F2"
         elif kind == "import" and feats.get("prop_named_like_temporal_type") and "unsupported operand type(s) for |" in msg:
             fid = "F67"
-        # F4 (a parameter declared at path level and again at operation level -> duplicate argument) and F5 (a property `field` shadowing
-        # dataclasses.field) are repaired: `dup_params` / `shadowing_props` stay in the features for the record, a recurrence is a violation
+        # F4 (a parameter declared at path level and again at operation level -> duplicate argument), F5 (a property `field` shadowing
+        # dataclasses.field) and F35 (a streamed response next to another 2xx response -> 'return' with value in async generator) are repaired:
+        # `dup_params` / `shadowing_props` / `stream_with_other_2xx` stay in the features for the record, a recurrence is a violation
         out.append((fid, f"{kind} {where}: {msg}", {"kind": kind, "where": where, "msg": msg, "features": feats}))
     return out
 
@@ -249,7 +250,7 @@ def make_cases(ctx, r) -> list[dict]:
     return cases
 
 
-FORMER = ("F4", "F5")       # repaired findings whose witnesses stay in the case list
+FORMER = ("F4", "F5", "F35")       # repaired findings whose witnesses stay in the case list
 
 
 def inject_param_override(doc: dict, rr) -> bool:
